@@ -16,6 +16,10 @@
 //	      element (first, second)}: whatever the reference decoder classifies
 //	      as a value outside the supported subset must make the library return
 //	      an error; whatever it classifies as valid goes through oracle (ii).
+//	(iv)  retention (retention.go): the slice returned by MarshalBinary, kept by the
+//	      caller without copying, is still the encoding of its value after the
+//	      library has marshalled / decoded other values (every ordered pair of a
+//	      value alphabet x four histories).
 //
 // Non-empty strict arrays form their own family: a failure that disappears when
 // they are replaced by null is keyed ".../strict-array-nonempty"; a failure
@@ -333,11 +337,16 @@ func run(c *hl.Ctx) {
 		"read back through Get and through re-marshal + independent decoder; plus FFmpeg/FMLE/yamdi-style onMetaData sequences decoded by advancing Size(). " +
 		"(iii) all 256 marker bytes x spec-plausible bodies x 6 contexts (+ the library's keyed strict-array layout when a probe shows it is in use); boolean body bytes 0..255. " +
 		"Non-trivial = distinct case (hash of family + bytes) for which the judged clause was exercised and held: value decoded/encoded and compared equal, or unsupported marker rejected; " +
-		"truncated marker cases are not judged and not counted as non-trivial.")
+		"truncated marker cases are not judged and not counted as non-trivial. " +
+		"(iv) retention: EVERY ordered pair (A, B) over the retention alphabet (all trees <= 2 nodes over the full leaf/key alphabets + size-class, wide and nested containers of each kind; thorough: + all 3-node trees over the small alphabets) " +
+		"x histories {then: a=M(A), reps x M(B); twice: a1=M(A), a2=M(A) on the same value, reps x M(B); decode: a=M(A), decode(spec(B)), Size, M(decoded)} plus per A {wrapped: a=M(A), w=M(object holding the same library value), reps x M(A)}: " +
+		"every slice returned by MarshalBinary is kept by the caller without copying and without writing to it and is read again after every later library call; it must be byte-identical to what it was at return (hence still decoded by the independent decoder to its value). " +
+		"Non-trivial there = history for which the kept slice was, at return, a specification encoding of A by the independent decoder, every interposed call completed, and all reads held.")
 	c.Assume("the reference AMF0 codec (engine/ref/amf0ref, written from amf0_spec_121207) is correct",
 		"repeated keys are outside C06 (which value an object with a repeated key denotes is not defined; C05 covers their size)",
 		"string contents are fixed per length class; number alphabet is the listed bit patterns",
-		"strict-array elements of API-built trees get keys by a fixed rotation (the API demands keys)")
+		"strict-array elements of API-built trees get keys by a fixed rotation (the API demands keys)",
+		"retention: histories run on one goroutine (concurrent marshalling is outside this family); a caller that only reads the returned slice is entitled to find it unchanged; values whose fresh encoding is already outside the specification (non-empty strict arrays, known finding) are judged for stability only")
 
 	full, small := ref.DefaultLeaves(), ref.SmallLeaves()
 	keys4, keys2 := ref.DefaultKeys(), []string{"a", ""}
@@ -361,6 +370,7 @@ func run(c *hl.Ctx) {
 		checkBooleanBytes(c)
 	}
 	checkMarkers(c, &idx)
+	checkRetentionFamily(c, &idx)
 
 	maxN := 0
 	for _, p := range profs {
@@ -446,6 +456,12 @@ func replay(c *hl.Ctx, raw json.RawMessage) {
 		} else {
 			checkSeq(c, cs.Part, cs.Seq, evalRefToLib)
 		}
+	case "retention":
+		var cs retCase
+		if err := json.Unmarshal(raw, &cs); err != nil {
+			panic(err)
+		}
+		checkRetention(c, cs, pairKey(cs.Hist, 0, 0))
 	case "marker":
 		var cs markerCase
 		if err := json.Unmarshal(raw, &cs); err != nil {
